@@ -437,6 +437,14 @@ func (s *Service) validate() error {
 			}
 			ids[arg.ID] = struct{}{}
 		}
+		if name, ok := duplicateFieldName(method.Arguments); ok {
+			return fmt.Errorf("Duplicate argument name %s in method %s.%s",
+				name, s.Name, method.Name)
+		}
+		if name, ok := duplicateFieldName(method.Exceptions); ok {
+			return fmt.Errorf("Duplicate exception name %s in method %s.%s",
+				name, s.Name, method.Name)
+		}
 	}
 	return nil
 }
@@ -1215,7 +1223,23 @@ func (f *Frugal) validateStructLike(s *Struct) error {
 		}
 		ids[field.ID] = struct{}{}
 	}
+	if name, ok := duplicateFieldName(s.Fields); ok {
+		return fmt.Errorf("Duplicate field name %s in struct %s", name, s.Name)
+	}
 	return nil
+}
+
+// duplicateFieldName returns the first name used by more than one of the
+// given fields.
+func duplicateFieldName(fields []*Field) (string, bool) {
+	names := make(map[string]struct{})
+	for _, field := range fields {
+		if _, ok := names[field.Name]; ok {
+			return field.Name, true
+		}
+		names[field.Name] = struct{}{}
+	}
+	return "", false
 }
 
 func (f *Frugal) isValidType(typ *Type) bool {
